@@ -247,7 +247,7 @@ func VH_C11_Estimate() {
 	nOut := vnondetLen("nout", 0, 2)
 	tx := vfundedTx(nIn, nOut, 2)
 	fq := vquote()
-	bad := vnondetLen("bad", 0, 2)
+	bad := vnondetLen("bad", 0, 3)
 	k := vnondetLen("which", 0, nIn-1)
 	switch bad {
 	case 1:
@@ -255,6 +255,11 @@ func VH_C11_Estimate() {
 	case 2:
 		s := bscript.Script(vnondetBytes("odd", 0, 3))
 		tx.Inputs[k].PreviousTxScript = &s
+	case 3: // an inscription envelope behind something that is not a P2PKH prefix
+		s := bscript.Script([][]byte{{}, {0x51}, {0x21, 2, 0, 0, 0, 0, 0, 0, 0, 0, 0, 0, 0, 0, 0, 0, 0, 0, 0, 0, 0, 0, 0, 0, 0, 0, 0, 0, 0, 0, 0, 0, 0, 1, 0xac}}[vnondetLen("odd-prefix", 0, 2)])
+		s = append(s, 0x00, 0x63, 0x03, 0x6f, 0x72, 0x64, 0x51, 0x01, 0x41, 0x00, 0x01, 0x42, 0x68)
+		tx.Inputs[k].PreviousTxScript = &s
+		bad = 2
 	}
 	est, err := tx.EstimateSize()
 	_, err2 := tx.EstimateIsFeePaidEnough(fq)
